@@ -39,7 +39,16 @@ structure GoodKeys (g : FutureGroup) : Prop where
   emp : g.roleSlab.len = 0 ↔ g.roleKeys.elems = []
   cnt : g.roleSlab.len = g.roleKeys.elems.length
 
-def poll_tie_statement : Prop :=
+/-- forget the slot annotation of a `childBegin` event.  The environment of translated code names the slot of a child that is
+    handed the caller's own waker by the child's number (`Rs.slotOf (.par _) c = c`, Fc/RustEnv.lean), the model's
+    `World.pollChild c k` by the key `k` of the member; in a group the two differ (fixed-children families: child = position) -/
+def eraseSlot : Ev → Ev
+  | .childBegin c _ wk => .childBegin c 0 wk
+  | e => e
+
+/-- the statement as first written: the two traces are EQUAL.  False (FcProps/KTieGrpPollDF.lean, `v0_false`): only the slot
+    annotation of `childBegin` for a `.par` waker differs -/
+def poll_tie_statement_v0 : Prop :=
   ∀ (g : FutureGroup) (b : Eng Grp) (w : Nat),
     WfG g → GoodKeys g → FutSteps b.w →
     b.s.stream = false → b.s.dead = false → b.s.queue = [] →
@@ -50,6 +59,20 @@ def poll_tie_statement : Prop :=
       env'.scripts = (Eng.poll group (absF g b) w).w.scripts ∧
       env'.handed = (Eng.poll group (absF g b) w).w.handed ∧
       (Eng.poll group (absF g b) w).w.trace = .pollEnd (outcomeOf b.s.keyed ret) :: env'.trace
+
+/-- the statement: as `poll_tie_statement_v0`, the traces compared up to the slot annotation of `childBegin` events -/
+def poll_tie_statement : Prop :=
+  ∀ (g : FutureGroup) (b : Eng Grp) (w : Nat),
+    WfG g → GoodKeys g → FutSteps b.w →
+    b.s.stream = false → b.s.dead = false → b.s.queue = [] →
+    ∃ g' env' ret,
+      FutureGroup.poll_next_inner g w ((absF g b).w.emit (.pollBegin w)) = some (g', env', ret) ∧
+      WfG g' ∧ GoodKeys g' ∧
+      core (absF g' b) = core (Eng.poll group (absF g b) w) ∧
+      env'.scripts = (Eng.poll group (absF g b) w).w.scripts ∧
+      env'.handed = (Eng.poll group (absF g b) w).w.handed ∧
+      (Eng.poll group (absF g b) w).w.trace.map eraseSlot
+        = (Ev.pollEnd (outcomeOf b.s.keyed ret) :: env'.trace).map eraseSlot
 
 end TieGrpFD
 
